@@ -3,9 +3,9 @@ package core
 import (
 	"fmt"
 	"os"
-	"strconv"
 	"runtime"
 	"runtime/metrics"
+	"strconv"
 	"strings"
 	"sync/atomic"
 	"syscall"
@@ -13,6 +13,17 @@ import (
 )
 
 var progress atomic.Int64
+
+// CurrentCase is the name of the case being run (for the step-cost log).
+var CurrentCase atomic.Value
+
+// Relaxed suspends the CPU criterion (harness set-up such as key generation has no budget).
+var Relaxed atomic.Bool
+
+var stepLog = func() float64 {
+	f, _ := strconv.ParseFloat(os.Getenv("VF_STEPLOG"), 64)
+	return f
+}()
 
 // HangBudget is the wall-clock time without progress and without CPU use after
 // which the worker gives up (set before StartWatchdog).
@@ -51,6 +62,9 @@ func StartWatchdog(cpuBudget float64, heapBudget uint64) {
 			time.Sleep(100 * time.Millisecond)
 			p := progress.Load()
 			if p != last {
+				if u := cpuSeconds() - cpu0; stepLog > 0 && u > stepLog {
+					fmt.Fprintf(os.Stderr, "STEPCPU %.2fs wall %.2fs heap+%dMiB in %v\n", u, time.Since(t0).Seconds(), (int64(heapBytes())-int64(heap0))>>20, CurrentCase.Load())
+				}
 				last, cpu0, heap0, t0 = p, cpuSeconds(), heapBytes(), time.Now()
 				heapHist = heapHist[:0]
 				continue
@@ -59,7 +73,7 @@ func StartWatchdog(cpuBudget float64, heapBudget uint64) {
 			h := heapBytes()
 			var why string
 			hang := false
-			if used > cpuBudget {
+			if used > cpuBudget && !Relaxed.Load() {
 				why = fmt.Sprintf("step used %.1fs of CPU without reaching quiescence", used)
 			} else if h > heap0 && h-heap0 > heapBudget && stillGrowing(h) {
 				why = fmt.Sprintf("heap grew by more than %d MiB within one step and is still growing without further input", heapBudget>>20)
